@@ -1,5 +1,5 @@
 ---------------------------- MODULE Crc ----------------------------
-EXTENDS Naturals, Sequences, TLC
+EXTENDS Integers, Sequences, TLC
 \* Rocksoft-model CRC on bit vectors; alg = [width, poly, init, refin, refout, xorout] with poly/init/xorout as LE bytes
 CPow2(n) == 2^n
 CBit(bs, i) == IF i < 8 * Len(bs) THEN (bs[(i \div 8) + 1] \div CPow2(i % 8)) % 2 ELSE 0
@@ -37,4 +37,9 @@ Smbus == [width |-> 8, poly |-> <<7>>, init |-> <<0>>, refin |-> FALSE, refout |
 \* ASSUME CrcLE(Iscsi, <<4,1,0,32,48>>, 4) = <<142, 200, 26, 55>>   \* postcard README: 8E C8 1A 37
 \* ASSUME CrcLE(Xmodem, Check9, 2) = <<195, 49>>                    \* 0x31c3
 \* ASSUME CrcLE(Smbus, Check9, 1) = <<244>>                         \* 0xf4
+CatalogueOK ==
+  /\ CrcLE(Iscsi, Check9, 4) = <<131, 146, 6, 227>>            \* 0xe3069283
+  /\ CrcLE(Iscsi, <<4,1,0,32,48>>, 4) = <<142, 200, 26, 55>>   \* postcard README: 8E C8 1A 37
+  /\ CrcLE(Xmodem, Check9, 2) = <<195, 49>>                    \* 0x31c3
+  /\ CrcLE(Smbus, Check9, 1) = <<244>>                         \* 0xf4
 =====================================================================
